@@ -212,7 +212,7 @@ func TestCheck(t *testing.T) {
 	defer run.Finish()
 	run.MinDistinct = 2
 	run.Assume("cap 0 (= unlimited) is reachable only for the delegate cap: ValidatorParams.Check rejects MaxCommitteeSize == 0")
-	n := core.Pick(6, 200)
+	n := core.Pick(6, 120)
 	run.Sharded(n, func(i int) {
 		name := fmt.Sprintf("chain/%d", i)
 		if run.Want(name) {
